@@ -67,3 +67,33 @@ Section Gen2.
         (S s, c_nat s ++ cells c1 (fst sl) ++ c_sep ++ cells c2 (snd sl) ++ c_sep) in
     enc_outcome (rolling2_custom_default w f 0%nat xs ys).
 End Gen2.
+
+(* ==== (YA) every backend x both output paths through Model/DriverDispatch.v; the lazy iterator ====
+   `be_of` numbers the backends of the harness (part=dispatch).  Nothing is masked here: the removed value
+   at the final position of a too-long window is what tells the index body from the iterator body.      *)
+From Tevec Require Import Model.DriverDispatch.
+
+Definition be_of (k : nat) : backend :=
+  match k with
+  | 0 => BVec | 1 => BSlice | 2 => BArray | 3 => BNdOwned | 4 => BNdView | 5 => BNdViewMut
+  | 6 => BDeque | 7 => BOptView | 8 => BPolars | 9 => BArc BVec | 10 => BArc BDeque
+  | _ => BArc (BArc BNdOwned)
+  end%nat.
+
+Section GenOn.
+  Context {T : Type} (c : T -> list Z).
+  Definition run_apply_on (b : nat) (out : bool) (w : nat) (xs : list T) : list Z :=
+    let f (s : nat) (a : option T * T) := (S s, c_nat s ++ c_opt c (fst a) ++ c (snd a)) in
+    enc_outcome (rolling_apply_on (be_of b) out w f 0%nat xs).
+  Definition run_apply_idx_on (b : nat) (out : bool) (w : nat) (xs : list T) : list Z :=
+    let f (s : nat) (a : option nat * nat * T) :=
+        let '(st, e, v) := a in (S s, c_nat s ++ c_opt c_nat st ++ c_nat e ++ c v) in
+    enc_outcome (rolling_apply_idx_on (be_of b) out w f 0%nat xs).
+  Definition run_custom_on (b : nat) (out : bool) (w : nat) (xs : list T) : list Z :=
+    let f (s : nat) (sl : list T) := (S s, c_nat s ++ cells c sl ++ c_sep) in
+    enc_outcome (rolling_custom_on (be_of b) out w f 0%nat xs).
+  (* k calls of next() on rolling_custom_iter(w, f), then the iterator is dropped *)
+  Definition run_custom_iter_take (k w : nat) (xs : list T) : list Z :=
+    let f (s : nat) (sl : list T) := (S s, c_nat s ++ cells c sl ++ c_sep) in
+    enc_outcome (rolling_custom_iter_take k w f 0%nat xs).
+End GenOn.
